@@ -102,8 +102,8 @@ Theorem C11_failed_op_changes_nothing :
 Proof. exact failed_op_changes_nothing. Qed.
 Print Assumptions C11_failed_op_changes_nothing.
 
-(* grow_refused_insert_succeeds_unless_path_full.  When the table has to grow (mCount >= mCapacity), the new capacity check
-   passes and the memory manager REFUSES the new bucket array: the insertion of a new key succeeds on the existing newest
+(* grow_refused_insert_succeeds_unless_path_full.  When the table has to grow (mCount >= mCapacity) and the memory manager
+   REFUSES the new bucket array (the size loop of pvAddGrow always ends: kind_ok3): the insertion of a new key succeeds on the existing newest
    table (capacity and number of generations not increased, Inv kept, the key is in) as soon as SOME bucket among the
    bucketCount probes of the key's path is not full; it throws "Hash table is full" with the state unchanged exactly when
    every one of them is full. *)
@@ -112,12 +112,12 @@ Theorem C11_grow_refused_insert_succeeds_unless_path_full :
            (wf0 : bool) (start : Z -> Z -> Z) (next : Z -> Z -> Z -> Z) (logStart : Z) (calcCapacity shift : Z -> Z)
            (nothrowReloc : bool),
          kind_ok B decode upd_bound cap start next logStart shift ->
+         kind_ok3 calcCapacity ->
          forall (s : hset B) (t : table B) (r : list (table B)) (k : Z) (sch : list bool),
          Inv B b0 decode h cap wf0 start next nothrowReloc s ->
          gens B s = t :: r ->
          ~ In k (abs B s) ->
          (count B s <? capacity B s) = false ->
-         (calcCapacity (2 ^ newLog B logStart shift (gens B s)) <=? count B s) = false ->
          ((exists d : nat, Z.of_nat d < bcount B t /\ isFull B cap (getb B b0 wf0 t (path start next (bcount B t) (h k) d)) = false) ->
           exists s' : hset B,
             step B b0 decode upd_bound h cap wf0 start next logStart calcCapacity shift nothrowReloc s
@@ -131,16 +131,17 @@ Proof. exact grow_refused_insert_succeeds_unless_path_full. Qed.
 Print Assumptions C11_grow_refused_insert_succeeds_unless_path_full.
 
 (* later_ops_complete_migration.  From any state satisfying Inv whose capacity does not exceed the physical size of the
-   newest table, failure-free insertions of fresh keys never terminate the process and never fail except through
-   MOMO_CHECK(newCapacity > mCount); if they all succeed then after more than max(0, mCapacity - mCount) of them (at the
-   latest at the next growth) the chain is back to ONE generation, and it stays single.  Needs kind_ok2: the probe sequence
-   reaches every bucket (C13) and CalcCapacity never exceeds the physical size. *)
+   newest table (true for every reachable state: next theorem), failure-free insertions of fresh keys never terminate the
+   process and ALL succeed; after more than max(0, mCapacity - mCount) of them (at the latest at the next growth) the chain
+   is back to ONE generation, and it stays single.  Needs kind_ok2 (the probe sequence reaches every bucket (C13),
+   CalcCapacity never exceeds the physical size) and kind_ok3 (capacities grow with the table size). *)
 Theorem C11_later_ops_complete_migration :
   forall (B : Type) (b0 : B) (decode : Z -> B -> Z) (upd_bound : B -> Z -> B) (h : Z -> Z) (cap : Z) 
            (wf0 : bool) (start : Z -> Z -> Z) (next : Z -> Z -> Z -> Z) (logStart : Z) (calcCapacity shift : Z -> Z)
            (nothrowReloc : bool),
          kind_ok B decode upd_bound cap start next logStart shift ->
          kind_ok2 cap start next calcCapacity ->
+         kind_ok3 calcCapacity ->
          forall (ks : list Z) (s : hset B),
          Inv B b0 decode h cap wf0 start next nothrowReloc s ->
          CapOk B cap s ->
@@ -149,9 +150,10 @@ Theorem C11_later_ops_complete_migration :
          exists (s' : hset B) (outs : list out),
            run B b0 decode upd_bound h cap wf0 start next logStart calcCapacity shift nothrowReloc s (map fresh_insert ks) =
            Some (s', outs) /\
-           Forall (fun o : out => o = RInserted \/ o = RCheck) outs /\
-           (Forall (fun o : out => o = RInserted) outs ->
-            Z.max 0 (capacity B s - count B s) < Z.of_nat (length ks) \/ length (gens B s) = 1%nat -> length (gens B s') = 1%nat).
+           Forall (fun o : out => o = RInserted) outs /\
+           Inv B b0 decode h cap wf0 start next nothrowReloc s' /\
+           CapOk B cap s' /\
+           (Z.max 0 (capacity B s - count B s) < Z.of_nat (length ks) \/ length (gens B s) = 1%nat -> length (gens B s') = 1%nat).
 Proof. exact later_ops_complete_migration_thm. Qed.
 Print Assumptions C11_later_ops_complete_migration.
 
@@ -168,6 +170,21 @@ Theorem C11_reachable_cap_ok :
 Proof. exact reachable_cap_ok. Qed.
 Print Assumptions C11_reachable_cap_ok.
 
+(* since the fix of pvAddGrow (size loop instead of MOMO_CHECK(newCapacity > mCount)): in every reachable state, whatever failed before, no insertion ends in a capacity-check failure (model result RCheck), i.e. an overloaded table can always try to grow again. *)
+Theorem C11_insert_never_fails_check :
+  forall (B : Type) (b0 : B) (decode : Z -> B -> Z) (upd_bound : B -> Z -> B) (h : Z -> Z) (cap : Z) 
+           (wf0 : bool) (start : Z -> Z -> Z) (next : Z -> Z -> Z -> Z) (logStart : Z) (calcCapacity shift : Z -> Z)
+           (nothrowReloc : bool),
+         kind_ok B decode upd_bound cap start next logStart shift ->
+         kind_ok2 cap start next calcCapacity ->
+         kind_ok3 calcCapacity ->
+         forall (os : list op) (s : hset B) (outs : list out) (k : Z) (hf af rf : bool) (sch : list bool) (s' : hset B) (r : out),
+         run B b0 decode upd_bound h cap wf0 start next logStart calcCapacity shift nothrowReloc (hinit B) os = Some (s, outs) ->
+         step B b0 decode upd_bound h cap wf0 start next logStart calcCapacity shift nothrowReloc s (OInsert k hf af rf sch) =
+         Some (s', r) -> r <> RCheck.
+Proof. exact insert_never_fails_check. Qed.
+Print Assumptions C11_insert_never_fails_check.
+
 (* the hypotheses kind_ok hold for the concrete kinds used by the extracted model (mask start index, linear and triangular probing, exact max-probe bound, both growth policies). *)
 Theorem C11_concrete_kind_ok :
   forall c : config,
@@ -181,6 +198,12 @@ Theorem C11_linear_kind_ok2 :
   forall c : config, 0 < c_cap c -> c_probe c = 0 -> kind_ok2 (c_cap c) start_mask (cfg_next c) (cfg_cc c).
 Proof. exact linear_kind_ok2. Qed.
 Print Assumptions C11_linear_kind_ok2.
+
+(* kind_ok3 holds for both capacity policies (HashBucketBase: 5/8, 3/2, 2 per bucket; open addressing: 11/12 and 13/14 of the slots). *)
+Theorem C11_concrete_kind_ok3 :
+  forall c : config, 0 < c_cap c -> kind_ok3 (cfg_cc c).
+Proof. exact concrete_kind_ok3. Qed.
+Print Assumptions C11_concrete_kind_ok3.
 
 (* the two main theorems instantiated at cfg_run = exactly the extracted function that is compared with the real momo containers on every run. *)
 Theorem C11_cfg_all_histories :
